@@ -689,22 +689,33 @@ ResetPeer(p) ==
   /\ pm' = [pm EXCEPT ![p] = NoPM]
   /\ fsm' = [fsm EXCEPT ![p] = [d \in Dirs |-> NoFsm]]
 
+(* An API call computes its result under the server lock (one step) and
+   returns to its caller in a later step: other goroutines may log events in
+   between.                                                                 *)
+Done(id, r) == calls' = [calls EXCEPT ![id].pc = "ret", ![id].r = r]
+
+CallRet(id) ==
+  LET cl == calls[id] IN
+  /\ cl.pc = "ret" /\ cl.op # "write"
+  /\ out' = Ret(out, cl.p, cl.op, 0, cl.r)
+  /\ calls' = Without(calls, id)
+  /\ UNCHANGED <<cfg, srv, pm, fsm, conn, dial, now, gh>>
+
 AddPeer(id) ==
   LET cl == calls[id]
       p == cl.p
   IN
-  /\ cl.op = "addPeer" /\ LockFree
-  /\ calls' = Without(calls, id)
+  /\ cl.op = "addPeer" /\ cl.pc = "start" /\ LockFree
   /\ IF p \in srv.reg
-       THEN /\ out' = Ret(out, p, "addPeer", 0, "ErrPeerAlreadyExists")
+       THEN /\ Done(id, "ErrPeerAlreadyExists")
             /\ UNCHANGED <<srv, pm, fsm>>
-       ELSE /\ out' = Ret(out, p, "addPeer", 0, "nil")
+       ELSE /\ Done(id, "nil")
             /\ srv' = [srv EXCEPT !.reg = @ \cup {p}]
             /\ IF srv.serving
                  THEN /\ pm' = [pm EXCEPT ![p] = StartedPM(p)]
                       /\ fsm' = [fsm EXCEPT ![p] = StartedFsms(p)]
                  ELSE UNCHANGED <<pm, fsm>>
-  /\ UNCHANGED <<cfg, conn, dial, now, gh>>
+  /\ UNCHANGED <<cfg, conn, dial, now, out, gh>>
 
 DeletePeerBegin(id) ==
   LET cl == calls[id]
@@ -712,19 +723,17 @@ DeletePeerBegin(id) ==
   IN
   /\ cl.op = "deletePeer" /\ cl.pc = "start" /\ LockFree
   /\ IF p \notin srv.reg
-       THEN /\ out' = Ret(out, p, "deletePeer", 0, "ErrPeerNotExist")
-            /\ calls' = Without(calls, id)
+       THEN /\ Done(id, "ErrPeerNotExist")
             /\ UNCHANGED <<srv, pm, fsm>>
        ELSE IF srv.serving
          THEN /\ srv' = [srv EXCEPT !.lock = id]
               /\ pm' = [pm EXCEPT ![p].closing = TRUE]
               /\ calls' = [calls EXCEPT ![id].pc = "wait"]
-              /\ UNCHANGED <<out, fsm>>
+              /\ UNCHANGED fsm
          ELSE /\ srv' = [srv EXCEPT !.reg = @ \ {p}]
               /\ ResetPeer(p)
-              /\ out' = Ret(out, p, "deletePeer", 0, "nil")
-              /\ calls' = Without(calls, id)
-  /\ UNCHANGED <<cfg, conn, dial, now, gh>>
+              /\ Done(id, "nil")
+  /\ UNCHANGED <<cfg, conn, dial, now, out, gh>>
 
 DeletePeerEnd(id) ==
   LET cl == calls[id]
@@ -733,49 +742,42 @@ DeletePeerEnd(id) ==
   /\ cl.op = "deletePeer" /\ cl.pc = "wait" /\ pm[p].pc = "done"
   /\ srv' = [srv EXCEPT !.reg = @ \ {p}, !.lock = ""]
   /\ ResetPeer(p)
-  /\ out' = Ret(out, p, "deletePeer", 0, "nil")
-  /\ calls' = Without(calls, id)
-  /\ UNCHANGED <<cfg, conn, dial, now, gh>>
+  /\ Done(id, "nil")
+  /\ UNCHANGED <<cfg, conn, dial, now, out, gh>>
 
 GetPeer(id) ==
   LET cl == calls[id] IN
-  /\ cl.op = "getPeer" /\ LockFree
-  /\ out' = Ret(out, cl.p, "getPeer", 0, IF cl.p \in srv.reg THEN "nil" ELSE "ErrPeerNotExist")
-  /\ calls' = Without(calls, id)
-  /\ UNCHANGED <<cfg, srv, pm, fsm, conn, dial, now, gh>>
+  /\ cl.op = "getPeer" /\ cl.pc = "start" /\ LockFree
+  /\ Done(id, IF cl.p \in srv.reg THEN "nil" ELSE "ErrPeerNotExist")
+  /\ UNCHANGED <<cfg, srv, pm, fsm, conn, dial, now, out, gh>>
 
 ListPeers(id) ==
-  /\ calls[id].op = "listPeers" /\ LockFree
-  /\ out' = Ret(out, "", "listPeers", 0, srv.reg)
-  /\ calls' = Without(calls, id)
-  /\ UNCHANGED <<cfg, srv, pm, fsm, conn, dial, now, gh>>
+  /\ calls[id].op = "listPeers" /\ calls[id].pc = "start" /\ LockFree
+  /\ Done(id, srv.reg)
+  /\ UNCHANGED <<cfg, srv, pm, fsm, conn, dial, now, out, gh>>
 
 CloseBegin(id) ==
   /\ calls[id].op = "close" /\ calls[id].pc = "start" /\ LockFree
   /\ srv' = [srv EXCEPT !.closed = TRUE]
-  /\ IF srv.serving
-       THEN /\ calls' = [calls EXCEPT ![id].pc = "wait"] /\ UNCHANGED out
-       ELSE /\ calls' = Without(calls, id) /\ out' = Ret(out, "", "close", 0, "nil")
-  /\ UNCHANGED <<cfg, pm, fsm, conn, dial, now, gh>>
+  /\ IF srv.serving THEN calls' = [calls EXCEPT ![id].pc = "wait"] ELSE Done(id, "nil")
+  /\ UNCHANGED <<cfg, pm, fsm, conn, dial, now, out, gh>>
 
 CloseEnd(id) ==
   /\ calls[id].op = "close" /\ calls[id].pc = "wait" /\ srv.done
-  /\ calls' = Without(calls, id) /\ out' = Ret(out, "", "close", 0, "nil")
-  /\ UNCHANGED <<cfg, srv, pm, fsm, conn, dial, now, gh>>
+  /\ Done(id, "nil")
+  /\ UNCHANGED <<cfg, srv, pm, fsm, conn, dial, now, out, gh>>
 
 ServeBegin(id) ==
   /\ calls[id].op = "serve" /\ calls[id].pc = "start" /\ LockFree
   /\ IF srv.done \/ srv.closed
-       THEN /\ out' = Ret(out, "", "serve", 0, "ErrServerClosed")
-            /\ calls' = Without(calls, id)
+       THEN /\ Done(id, "ErrServerClosed")
             /\ UNCHANGED <<srv, pm, fsm>>
        ELSE /\ srv' = [srv EXCEPT !.serving = TRUE, !.servePc = "running", !.serveCall = id,
                                   !.accPc = "idle"]
             /\ pm' = [p \in Peers |-> IF p \in srv.reg THEN StartedPM(p) ELSE pm[p]]
             /\ fsm' = [p \in Peers |-> IF p \in srv.reg THEN StartedFsms(p) ELSE fsm[p]]
             /\ calls' = [calls EXCEPT ![id].pc = "serving"]
-            /\ UNCHANGED out
-  /\ UNCHANGED <<cfg, conn, dial, now, gh>>
+  /\ UNCHANGED <<cfg, conn, dial, now, out, gh>>
 
 ServeSeesClose ==
   /\ srv.servePc = "running" /\ srv.closed
@@ -874,7 +876,7 @@ WriteRet(id) ==
 
 CallNext(id) ==
   \/ AddPeer(id) \/ DeletePeerBegin(id) \/ DeletePeerEnd(id) \/ GetPeer(id) \/ ListPeers(id)
-  \/ CloseBegin(id) \/ CloseEnd(id) \/ ServeBegin(id) \/ WriteCall(id) \/ WriteRet(id)
+  \/ CloseBegin(id) \/ CloseEnd(id) \/ ServeBegin(id) \/ WriteCall(id) \/ WriteRet(id) \/ CallRet(id)
 
 SrvNext ==
   \/ ServeSeesClose \/ ServeSeesLisErr \/ ServeLisClosed \/ ServeStopLock \/ ServeStopEnd \/ ServeDone \/ ServeRet
